@@ -777,10 +777,10 @@ class C09Engine(Engine):
                     and np.array_equal(np.array(pr.timepoints), sh["orig_tp"])
                     and np.array_equal(np.array(pr.nonfixed_nodes), sh["orig_nf"]))
             if not same:
-                res["violations"].append(violation(
-                    "shared-prior-modified", site,
-                    f"after call {call} the caller's prior object (brought back to linear space on a copy) no longer "
-                    f"equals what build_prior_grid returned (conversions so far {sh['conv']})"))
+                # The statement is about RESULTS of reuse ("gives the same results ... as building a fresh one"), which
+                # the comparisons above decide at every later call; a modification of the caller's object that never
+                # changes a result is not a violation, so this is recorded, not judged.
+                stats["probe.shared_prior_object_modified"] += 1
 
     # ------------------------------------------------------------------
     def extra_parts(self, tier, pool, seed):
